@@ -479,6 +479,7 @@ fn finish(check: &dyn Check, args: &Args, total: Ctx, wall: f64) -> i32 {
     }
 
     let replay_dir = Path::new(VERIF_DIR).join("replays").join(id);
+    let _ = fs::remove_dir_all(&replay_dir); // replay files of earlier runs are stale
     let mut printed_keys: HashSet<String> = HashSet::new();
     let mut first_replays: Vec<String> = Vec::new();
     for v in &real {
